@@ -274,6 +274,9 @@ func (vc *VC) ghostNamesIn(e Expr, out map[string]bool) {
 		if gd, ok := vc.C.Ghosts[e.Fun]; ok && gd.Kind == "fact" {
 			out[e.Fun] = true
 		}
+		if e.Fun == "iscopy" {
+			out["iscopy$"] = true
+		}
 		if e.Fun == "old" {
 			return
 		}
@@ -309,46 +312,56 @@ func hasFuncParam(sig *types.Signature) bool {
 // callEffect derives the post-state of a call from the callee's contract (or the absence of one).
 func (vc *VC) callEffect(ci *callInfo, fc *FuncContract) {
 	pre := vc.st
-	if fc != nil && fc.Pure {
-		return
-	}
 	post := pre.derive()
 	post.guard = ci.guard
+	post.havocKeys = map[string]bool{}
+	if fc != nil {
+		// ghost facts promised by the callee become true during the call: weaken them
+		gn := map[string]bool{}
+		for _, e := range fc.Ensures {
+			vc.ghostNamesIn(e.Expr, gn)
+		}
+		for g := range gn {
+			if g != "iscopy$" {
+				post.havocKeys["G:"+g] = true
+			}
+		}
+		if gn["iscopy$"] && ci.sig != nil {
+			for i := 0; i < ci.sig.Results().Len(); i++ {
+				post.havocKeys[vc.iscopyKey(ci.sig.Results().At(i).Type())] = true
+			}
+		}
+	}
 	ak := vc.allocKey()
-	post.havocKeys = map[string]bool{ak: true}
 	switch {
+	case fc != nil && fc.Pure:
+		if fc.Allocates {
+			post.havocKeys[ak] = true
+		}
+		if len(post.havocKeys) == 0 {
+			return
+		}
 	case fc != nil && fc.HasMod:
+		post.havocKeys[ak] = true
 		for _, m := range fc.Modifies {
 			if m == "*" {
-				post.havocHeap, post.havocGhst = true, true
+				post.havocHeap, post.havocGhst, post.havocLocal = true, true, true
 			} else if m == "heap" {
 				post.havocHeap = true
 			} else {
 				post.havocPats = append(post.havocPats, m)
 			}
 		}
-		gn := map[string]bool{}
-		for _, e := range fc.Ensures {
-			vc.ghostNamesIn(e.Expr, gn)
-		}
-		for g := range gn {
-			post.havocKeys["G:"+g] = true
-		}
 	case fc != nil:
-		// contract without frame: heap unknown afterwards; ghost facts named by the ensures are weakened
+		// contract without frame: heap unknown afterwards
+		post.havocKeys[ak] = true
 		post.havocHeap = true
-		gn := map[string]bool{}
-		for _, e := range fc.Ensures {
-			vc.ghostNamesIn(e.Expr, gn)
-		}
-		for g := range gn {
-			post.havocKeys["G:"+g] = true
-		}
 		if !fc.External && !fc.Trusted {
 			post.havocGhst = true
 			post.havocLocal = true
 		}
 	default:
+		post.havocKeys[ak] = true
 		post.havocHeap = true
 		pk := ""
 		if ci.fn != nil {
@@ -893,9 +906,15 @@ func (vc *VC) ret(ins *ssa.Return) {
 		}
 	}
 	for _, e := range vc.fc.Ensures {
+		if e.Derived {
+			continue
+		}
 		g := vc.trBool(e.Expr, env, e)
-		vc.counts["ensures-tmp"] = 0
-		o := vc.oblige("ensures", fmt.Sprintf("return#%d/ensures.%d%s", k, e.Index, tagSuffix(e.Tags)), g, e.Tags, ins.Pos(), e)
+		det := fmt.Sprintf("ensures.%d", e.Index)
+		if e.Detail != "" {
+			det = e.Detail
+		}
+		o := vc.oblige("ensures", fmt.Sprintf("return#%d/%s%s", k, det, tagSuffix(e.Tags)), g, e.Tags, ins.Pos(), e)
 		o.Detail["return"] = fmt.Sprint(k)
 	}
 	// frame for ghost/thread-local state is part of ensures; fnspec result binding
